@@ -1127,6 +1127,10 @@ def expr_fn(
         return '<strong class="error">Expression error: {}</strong>'.format(
             html.escape(str(e))
         )
+    except RecursionError:
+        # The recursive-descent parser uses a dozen Python frames per
+        # parenthesis level, e.g. "((((((...1...))))))" nested 50 deep
+        return '<strong class="error">Expression error: Stack exhausted</strong>'
 
 
 def padleft_fn(
